@@ -111,6 +111,35 @@ func (r *rd) pods() []podTok {
 	return out
 }
 
+// pod populations of a history: a sampling step names the active one
+func (r *rd) pops() [][]podTok {
+	n := r.n()
+	out := [][]podTok{}
+	for i := 0; i < n && !r.bad; i++ {
+		out = append(out, r.pods())
+	}
+	return out
+}
+
+func encPops(pops [][]podTok) []int64 {
+	out := []int64{int64(len(pops))}
+	for _, ps := range pops {
+		out = append(out, encPods(ps)...)
+	}
+	return out
+}
+
+// pods_at of Model.v: Z.to_nat of a negative index is 0, a missing population is empty
+func popAt[T any](pops [][]T, sel int64) []T {
+	if sel < 0 {
+		sel = 0
+	}
+	if sel >= int64(len(pops)) {
+		return nil
+	}
+	return pops[sel]
+}
+
 func (p podTok) enc() []int64 {
 	out := []int64{p.id, p.qos, p.src}
 	if p.hasPrio {
@@ -319,7 +348,7 @@ func encQueue(q []apis.Resource) []int64 {
 func runCalc(in []int64) []int64 {
 	r := &rd{t: in}
 	ratio := r.z()
-	ptoks := r.pods()
+	ptoks := r.pops()
 	nops := r.n()
 	if r.bad {
 		return badInput
@@ -328,6 +357,7 @@ func runCalc(in []int64) []int64 {
 		kind                                  int64
 		nodeErr, podsErr                      bool
 		label, acpu, amem, policy, ucpu, umem int64
+		psel                                  int64
 		hasAnnot                              bool
 		list                                  []int64
 		rkind                                 int64
@@ -339,9 +369,11 @@ func runCalc(in []int64) []int64 {
 		case 1:
 			o.nodeErr, o.label, o.acpu, o.amem = r.b(), r.z(), r.z(), r.z()
 			o.podsErr, o.policy, o.ucpu, o.umem = r.b(), r.z(), r.z(), r.z()
+			o.psel = r.z()
 		case 2:
 			o.nodeErr, o.label = r.b(), r.z()
 			o.hasAnnot, o.list = r.optZlist()
+			o.acpu, o.amem = r.z(), r.z()
 		case 3:
 			o.rkind, o.list = r.z(), r.zlist()
 		default:
@@ -358,10 +390,15 @@ func runCalc(in []int64) []int64 {
 	if int64(int(ratio)) != ratio {
 		panic("ratio does not fit int")
 	}
-	pods := []*v1.Pod{}
-	for _, p := range ptoks {
-		pods = append(pods, p.build())
+	pops := [][]*v1.Pod{}
+	for _, ps := range ptoks {
+		built := []*v1.Pod{}
+		for _, p := range ps {
+			built = append(built, p.build())
+		}
+		pops = append(pops, built)
 	}
+	var pods []*v1.Pod
 	var curNode *v1.Node
 	var nodeErr, podsErr bool
 	getNode := func() (*v1.Node, error) {
@@ -381,7 +418,7 @@ func runCalc(in []int64) []int64 {
 	q := queue.NewSqQueue()
 	pol := extend.NewExtendResourceForVerif(cfg, getPods, getNode, nil, q, ug, int(ratio))
 	factory := &framework.EventQueueFactory{Queues: map[string]*framework.EventQueue{}}
-	calc := noderesources.NewCalculatorForVerif(pol, factory, q, getNode)
+	calc := noderesources.NewCalculatorForVerif(pol, factory, q, getNode, int(ratio))
 	eq := factory.EventQueue(string(framework.NodeResourcesEventName)).GetQueue()
 	defer eq.ShutDown()
 
@@ -390,6 +427,7 @@ func runCalc(in []int64) []int64 {
 		switch o.kind {
 		case 1:
 			setPolicy(o.policy)
+			pods = popAt(pops, o.psel)
 			curNode = mkNode(o.label, o.acpu, o.amem, nil)
 			nodeErr, podsErr = o.nodeErr, o.podsErr
 			ug.cpu, ug.mem = o.ucpu, o.umem
@@ -414,7 +452,7 @@ func runCalc(in []int64) []int64 {
 				s := typesText(o.list)
 				annot = &s
 			}
-			curNode = mkNode(o.label, 0, 0, annot)
+			curNode = mkNode(o.label, o.acpu, o.amem, annot)
 			nodeErr = o.nodeErr
 			calc.PreProcess()
 			out = append(out, tag(2)...)
@@ -476,6 +514,7 @@ type world struct {
 	podsErr   bool
 	nodeGets  int
 	nodeErrAt int64
+	segs      [][]int64 // client calls (id, ok pairs) per pod listing
 }
 
 func newWorld(ptoks []podTok, flags []bool) *world {
@@ -521,9 +560,11 @@ func newWorld(ptoks []podTok, flags []bool) *world {
 		}
 		if tok.stuck || fail {
 			w.calls = append(w.calls, tok.id, 0)
+			w.seg(tok.id, 0)
 			return true, nil, errors.New("injected eviction failure")
 		}
 		w.calls = append(w.calls, tok.id, 1)
+		w.seg(tok.id, 1)
 		w.successes++
 		// every pod with that name leaves the active set (pod names are unique in valid inputs)
 		keep := w.active[:0:0]
@@ -565,6 +606,8 @@ func (w *world) getPods() ([]*v1.Pod, error) {
 	if w.podsErr {
 		return nil, errPods
 	}
+	// every pod listing opens a new pass (GetLatestPodsAndResList is called once per resource pass)
+	w.segs = append(w.segs, []int64{})
 	return append([]*v1.Pod{}, w.active...), nil
 }
 
@@ -573,6 +616,27 @@ func (w *world) activeIDs() []int64 {
 	for _, p := range w.active {
 		out = append(out, w.toks[p.Name].id)
 	}
+	return out
+}
+
+func (w *world) seg(id, ok int64) {
+	if len(w.segs) == 0 {
+		panic("eviction before any pod listing")
+	}
+	w.segs[len(w.segs)-1] = append(w.segs[len(w.segs)-1], id, ok)
+}
+
+// the client calls of Cleanup, per round the cpu pass and the memory pass
+func (w *world) takePasses() []int64 {
+	if len(w.segs)%2 != 0 {
+		panic("Cleanup listed the pods an odd number of times")
+	}
+	out := []int64{int64(len(w.segs) / 2)}
+	for _, sg := range w.segs {
+		out = append(out, int64(len(sg)/2))
+		out = append(out, sg...)
+	}
+	w.segs, w.calls = nil, nil
 	return out
 }
 
@@ -713,7 +777,7 @@ func runCleanup(in []int64) []int64 {
 	}
 	out := tag(21)
 	out = append(out, code, int64(w.nodeGets-1))
-	out = append(out, w.takeCalls()...)
+	out = append(out, w.takePasses()...)
 	out = append(out, w.activeIDs()...)
 	out = append(out, int64(len(w.flags)))
 	return out
@@ -763,7 +827,11 @@ func laws(sel int, in, got []int64, law func(lsel int, lin []int64, sig string))
 	case 1:
 		r := &rd{t: in}
 		ratio := r.z()
-		ptoks := r.pods()
+		pops := r.pops()
+		allPods := []podTok{}
+		for _, ps := range pops {
+			allPods = append(allPods, ps...)
+		}
 		nops := r.n()
 		cfgTypes := []int64{}
 		samples := []int64{}
@@ -779,6 +847,7 @@ func laws(sel int, in, got []int64, law func(lsel int, lin []int64, sig string))
 				acpu, amem := r.z(), r.z()
 				r.b()
 				pol, ucpu, umem := r.z(), r.z(), r.z()
+				psel := r.z()
 				expectTag(1)
 				flag := g.z()
 				n := g.n()
@@ -790,12 +859,13 @@ func laws(sel int, in, got []int64, law func(lsel int, lin []int64, sig string))
 				samples = append(samples, acpu, amem, ucpu, umem)
 				nsamples++
 				if flag != -1 {
-					law(101, cat([]int64{ratio, pol}, encPods(ptoks), []int64{acpu, amem, ucpu, umem, q[2*n-2], q[2*n-1]}), "")
+					law(101, cat([]int64{ratio, pol}, encPods(popAt(pops, psel)), []int64{acpu, amem, ucpu, umem, q[2*n-2], q[2*n-1]}), "")
 				}
 			case 2:
 				r.b()
 				r.z()
 				hasAnnot, annot := r.optZlist()
+				acpu, amem := r.z(), r.z()
 				expectTag(2)
 				lin := cat(queueNow, encList(cfgTypes))
 				if hasAnnot {
@@ -806,9 +876,11 @@ func laws(sel int, in, got []int64, law func(lsel int, lin []int64, sig string))
 				}
 				if g.z() != 0 {
 					c, m := g.z(), g.z()
-					events = append(events, c, m)
+					events = append(events, acpu, amem, c, m)
 					nevents++
-					law(102, append(lin, 1, c, m), "")
+					law(102, append(lin, ratio, acpu, amem, 1, c, m), "")
+					// against the allocatable the node has at this very report
+					law(104, []int64{ratio, acpu, amem, c, m}, "")
 				}
 			case 3:
 				kind := r.z()
@@ -822,7 +894,7 @@ func laws(sel int, in, got []int64, law func(lsel int, lin []int64, sig string))
 				}
 			}
 		}
-		law(103, cat([]int64{ratio}, encPods(ptoks), []int64{int64(nsamples)}, samples, []int64{int64(nevents)}, events), "")
+		law(103, cat([]int64{ratio}, encPods(allPods), []int64{int64(nsamples)}, samples, []int64{int64(nevents)}, events), "")
 	case 2:
 		r := &rd{t: in}
 		ptoks := r.pods()
@@ -846,8 +918,8 @@ func laws(sel int, in, got []int64, law func(lsel int, lin []int64, sig string))
 			if code == 0 && (res == 1 || res == 2) {
 				law(110, cat([]int64{res}, encPods(cur), calls, encList(after)), "")
 			} else {
-				// nothing may be evicted by a failed / foreign event
-				law(111, cat(encPods(cur), calls, encList(after)), "")
+				// nothing may be evicted by a failed / foreign event (given as one cpu pass)
+				law(111, cat(encPods(cur), []int64{1}, calls, []int64{0}, encList(after)), "")
 			}
 			next := []podTok{}
 			for _, id := range after {
@@ -866,13 +938,17 @@ func laws(sel int, in, got []int64, law func(lsel int, lin []int64, sig string))
 		expectTag(21)
 		g.z()
 		g.z()
-		ncalls := g.n()
-		calls := []int64{int64(ncalls)}
-		for j := 0; j < 2*ncalls; j++ {
-			calls = append(calls, g.z())
+		nrounds := g.n()
+		passes := []int64{int64(nrounds)}
+		for k := 0; k < 2*nrounds; k++ {
+			ncalls := g.n()
+			passes = append(passes, int64(ncalls))
+			for j := 0; j < 2*ncalls; j++ {
+				passes = append(passes, g.z())
+			}
 		}
 		after := g.zlist()
-		law(111, cat(encPods(ptoks), calls, encList(after)), "")
+		law(111, cat(encPods(ptoks), passes, encList(after)), "")
 	}
 }
 
